@@ -38,7 +38,7 @@ def fget(f, k):
 def mism(ctx, what, expected, got):
     if len(mismatches) < 80:
         mismatches.append({'ctx': ctx, 'what': what, 'expected': expected,
-                           'got': got, 'impl': impl})
+                           'got': got, 'impl': impl, 'case_idx': childlib.CASE[0]})
 
 
 class World:
@@ -355,7 +355,7 @@ def run_case(case):
         w.close()
 
 
-for case in job['cases']:
+for childlib.CASE[0], case in enumerate(job['cases']):
     try:
         run_case(case)
     except Exception as e:
